@@ -36,22 +36,31 @@ EXPLANATION = (
 )
 ASSUMPTIONS = [
     "wrapper level only: the raw transport is StubStream (read(n) returns 1..n bytes chosen by the solver, b'' for ever at EOF, as "
-    "asyncio.StreamReader.read does); compressed streams (gz/bz2/xz wrappers), GNU tar / busybox tar binaries and the SSH/subprocess "
-    "transports are outside the claim; 'standard tar tools' is represented by CPython's tarfile (USTAR, GNU and PAX formats)",
-    "file data are concrete byte strings with position-dependent content (sizes 0..1500 bytes), chunk sizes 1..16 and 511/512/513 at tar "
-    "level; directories and regular files only (no links, devices, sparse members)",
+    "asyncio.StreamReader.read does); compressed streams (gz/bz2/xz wrappers), GNU tar / busybox tar binaries, the SSH/subprocess "
+    "transports and the real file system are outside the claim; 'standard tar tools' is represented by CPython's tarfile (USTAR, GNU "
+    "and PAX formats, names longer than 100 bytes included)",
+    "L1-L3: 48 concrete pairwise distinct data bytes; the first 2..6 raw reads have solver-chosen lengths (1..3 each, 1..2 for the member "
+    "reader), later reads return everything asked; read sizes / gaps / lengths / buffer sizes up to 6..12 (see each obligation's bound)",
+    "L4: concrete archives (directories and regular files of 0, 10, 37, 512, 513, 700, 1500 bytes with position-dependent content; no links, "
+    "devices or sparse members) read with a fixed chunk size c (every raw read returns min(asked, c) bytes) selected by the solver from 1..16, "
+    "511, 512, 513, or with chunk sizes cycling through solver-chosen values of {1, 3, 16, 100}; truncation and corruption are decided for "
+    "the chunk sizes named in the obligation (by L1 the layers above the wrappers see a chunking-independent stream)",
     "the local file system is replaced by an in-memory model bound to the names `os` and `bltn_open`/`open` inside "
     "streamflow.deployment.aiotarstream and streamflow.deployment.connector.base (path algebra = posixpath; makedirs/mkdir/chmod/utime "
     "record into dictionaries; geteuid() != 0 so no chown); a file counts as produced as soon as it is opened for writing, so partial "
     "files are visible to the oracle",
-    "truncation: the stream ends for ever at the solver-chosen position; a copy that performs more than 64 reads at EOF counts as "
-    "spinning (StubLivelock). A truncated stream must make the copy raise tarfile.TarError / EOFError / OSError / "
-    "WorkflowExecutionException whenever a member would otherwise be missing or partial; when only the end-of-archive marker or the "
-    "record padding is cut, either outcome is accepted as long as every member is complete",
-    "corruption: one byte of a 512-byte member header block is changed (the only part of a tar stream protected by a checksum); "
-    "changes to file data or to pax / GNU long-name payload blocks are undetectable by the tar format and outside the claim",
+    "truncation: the stream ends for ever at the solver-chosen cut point, taken from the boundary classes of every member (header start, "
+    "+1, middle, last byte; data start, +1, middle, last byte, end; first and last padding byte; member boundary; end-of-archive marker "
+    "blocks), not from every byte offset; a copy that performs more than 64 reads at EOF counts as spinning (StubLivelock). A truncated "
+    "stream must make the copy raise tarfile.TarError / EOFError / OSError / WorkflowExecutionException whenever a member would otherwise "
+    "be missing or partial - also when the cut falls exactly on a member boundary, where CPython's own tarfile would accept the shorter "
+    "archive; when only the end-of-archive marker or the record padding is cut, either outcome is accepted as long as every member is complete",
+    "corruption: one byte of a 512-byte header block is xor-ed with 0x01/0x80 (0x20/0xFF in the thorough tier) - the header is the only "
+    "part of a tar stream protected by a checksum; changes to file data or to pax / GNU long-name payload blocks are undetectable by the "
+    "tar format and outside the claim",
+    "L5: members are added with AioTarStream.addfile from in-memory sources (gettarinfo/add, which stat the file system, are not executed); "
     "copyfileobj(length=None) (delegates to the synchronous shutil.copyfileobj and is never called that way) is outside the claim",
-    "DetLoop replaces the selector event loop; no coroutine of the code under test suspends on the stub, so scheduling is irrelevant",
+    "DetLoop replaces the selector event loop; no coroutine of the code under test suspends on the stubs, so scheduling is irrelevant",
 ]
 
 T_TELL = ("streamflow.deployment.aiotarstream.TellableStreamWrapper.read", "streamflow.deployment.aiotarstream.TellableStreamWrapper.tell", "streamflow.deployment.stream.BaseStreamWrapper.read")
@@ -348,12 +357,12 @@ def prop_member_reader(offset, size, pre, bs, chunks, blockinfo=None, end=None) 
         end = len(DATA)
 
     async def scn():
-        stub = StubStream(DATA, end, chunks)
+        stub = StubStream(DATA, end)
         w = _seekable(stub)
-        await w.read(pre)
+        await w.read(pre)  # positioning, not chunked
+        stub.chunks = list(chunks)
         f = FileStreamReaderWrapper(w, offset, size, blockinfo)
         got = []
-        total = 0
         rounds = 0
         while True:
             content = await f.read(None if bs == 0 else bs)
@@ -362,7 +371,6 @@ def prop_member_reader(offset, size, pre, bs, chunks, blockinfo=None, end=None) 
             if bs != 0 and len(content) > bs:
                 return False
             got.append(content)
-            total += len(content)
             rounds += 1
             if rounds > 200:
                 return False
@@ -400,11 +408,11 @@ def _mk_src(kind, end, p0, chunks):
 
     if kind == 2:
         s = SyncSource(DATA, end, 0)
-        return s, s, None
-    stub = StubStream(DATA, end, chunks)
+        return s, s
+    stub = StubStream(DATA, end)
     if kind == 0:
-        return _seekable(stub), stub, stub
-    return stub, stub, stub
+        return _seekable(stub), stub
+    return stub, stub
 
 
 def prop_copy(p0, length, bufsize, chunks, src_kind, dst_kind, end=None) -> bool:
@@ -419,19 +427,13 @@ def prop_copy(p0, length, bufsize, chunks, src_kind, dst_kind, end=None) -> bool
         end = len(DATA)
 
     async def scn():
-        src, raw, stub = _mk_src(src_kind, end, p0, chunks)
-        # position the source at p0
+        src, raw = _mk_src(src_kind, end, p0, chunks)
+        # position the source at p0 (not chunked), then install the chunk sizes
         if src_kind == 2:
-            raw.read(p0) if p0 > 0 else None
-        elif src_kind == 0:
-            await src.read(p0)
+            raw.read(p0)
         else:
-            left = p0
-            while left > 0:
-                b = await src.read(left)
-                if not b:
-                    break
-                left -= len(b)
+            await src.read(p0)
+            raw.chunks = list(chunks)
         if dst_kind == 0:
             sink = dst = SyncSink()
         else:
@@ -795,12 +797,16 @@ def prop_extract_complete(kind, fmt, driver, ci) -> bool:
     return _exact(fs, files, dirs)
 
 
+CYC = [1, 3, 16, 100]
+
+
 def prop_extract_cyclic(kind, fmt, driver, chunks) -> bool:
-    """Complete archive, raw reads return chunk sizes cycling through the solver-chosen list."""
+    """Complete archive, raw reads return chunk sizes cycling through CYC[c] for the solver-chosen
+    selectors c in `chunks` (a chunking that varies along the stream)."""
     raw, tree, marks, payload_end = archive(kind, fmt)
     files, dirs = _want(kind, fmt, driver)
-    chunks = [_sel(list(range(0, 65)), c) for c in chunks]  # realise: one path per chunk-size tuple
-    if None in chunks or 0 in chunks:
+    chunks = [_sel(CYC, c) for c in chunks]  # realise: one path per chunk-size tuple
+    if None in chunks:
         return True
     fs, err = _extract(raw, len(raw), None, driver, chunks=chunks, cyclic=True)
     if err is not None:
@@ -860,7 +866,7 @@ def header_blocks(kind, fmt):
 
 MASKS = [0x01, 0x80, 0x20, 0xFF]
 # first / last byte of every ustar header field plus a byte in the middle of the long ones
-FIELD_POS_Q = [0, 99, 100, 124, 135, 148, 155, 156, 257, 345, 511]
+FIELD_POS_Q = [0, 100, 124, 148, 155, 156, 257, 511]
 FIELD_POS = [0, 1, 50, 99, 100, 107, 108, 115, 116, 123, 124, 130, 135, 136, 147, 148, 151, 154, 155, 156, 157, 200, 256, 257, 262, 263, 264, 265, 280, 296, 297, 328, 329, 336, 337, 344, 345, 400, 499, 500, 511]
 
 
@@ -888,7 +894,7 @@ def prop_extract_corrupt(kind, fmt, driver, c, hi, pi, mi, table="q") -> bool:
 
 # ------------------------------------------------------------------ L5 writer
 
-W_SIZES = [0, 1, 511, 512, 513, 1500]
+W_SIZES = [0, 1, 512, 513, 1500, 511]
 W_BUFS = [None, 1, 7, 16, 512, 513]
 W_FMTS = [tarfile.USTAR_FORMAT, tarfile.GNU_FORMAT, tarfile.PAX_FORMAT]
 
@@ -1000,8 +1006,7 @@ G5 = "L5 tar writer: archives written by AioTarStream are read back identically 
 
 CASES = {
     "q_complete": [("two", "ustar", "ets_tree"), ("long", "gnu", "ets_tree"), ("long", "pax", "generic"), ("longdirs", "ustar", "generic"), ("single", "gnu", "ets_single")],
-    "q_tree": [("two", "ustar", "ets_tree"), ("long", "gnu", "ets_tree"), ("long", "pax", "ets_tree")],
-    "q_gen": [("two", "gnu", "generic"), ("longdirs", "ustar", "generic"), ("single", "gnu", "ets_single")],
+    "q": [("two", "ustar", "ets_tree"), ("long", "gnu", "ets_tree"), ("two", "pax", "generic"), ("single", "gnu", "ets_single")],
     "t_tree": [("two", "ustar", "ets_tree"), ("two", "gnu", "ets_tree"), ("two", "pax", "ets_tree"), ("long", "gnu", "ets_tree"), ("long", "pax", "ets_tree"), ("longdirs", "ustar", "ets_tree"), ("single", "ustar", "ets_single"), ("single", "pax", "ets_single")],
     "t_gen": [("two", "ustar", "generic"), ("two", "gnu", "generic"), ("two", "pax", "generic"), ("long", "gnu", "generic"), ("long", "pax", "generic"), ("longdirs", "ustar", "generic"), ("single", "gnu", "generic"), ("single", "gnu", "ets_single")],
 }
@@ -1178,9 +1183,9 @@ def specs(tier: str):
             "chunk size selector",
             T_TAR,
         )
-    ncyc, kc = (2, 6) if quick else (3, 6)
+    ncyc = 2 if quick else 3
     cyc = [f"c{i}" for i in range(ncyc)]
-    cycp, cycpre = _ints(cyc, 1, kc)
+    cycp, cycpre = _ints(cyc, 0, len(CYC) - 1)
     for kind, fmt, driver in [("two", "gnu", "ets_tree")] if quick else [("two", "gnu", "ets_tree"), ("two", "pax", "generic")]:
         add(
             f"L4_cyclic_{kind}_{fmt}_{driver}",
@@ -1188,15 +1193,15 @@ def specs(tier: str):
             cycp,
             cycpre,
             f"prop_extract_cyclic({kind!r}, {fmt!r}, {driver!r}, [{', '.join(cyc)}])",
-            f"archive '{kind}' ({fmt}) through {_DRIVER_WORDS[driver]}; raw reads cycle through {ncyc} solver-chosen chunk sizes 1..{kc} (a chunking that varies along the stream)",
+            f"archive '{kind}' ({fmt}) through {_DRIVER_WORDS[driver]}; raw reads cycle through {ncyc} solver-chosen chunk sizes out of {CYC} (a chunking that varies along the stream)",
             f"{ncyc} chunk sizes",
             T_TAR,
         )
     # ---- L4 truncation, one group of obligations per cut class so that findings stay separate
-    t_chunks = [5, 512] if quick else [1, 7, 512, 513]
+    t_chunks = [16, 512] if quick else [1, 7, 512, 513]
     nt = len(t_chunks)
     per = 70 if quick else 80
-    for key in ("q_tree", "q_gen") if quick else ("t_tree", "t_gen"):
+    for key in ("q",) if quick else ("t_tree", "t_gen"):
         for cls in ("F", "D", "H", "E"):
             table = cuts(key, cls)
             nparts = max(1, -(-len(table) // per))
@@ -1214,46 +1219,44 @@ def specs(tier: str):
                     T_TAR,
                 )
     # ---- L4 corruption of one header byte
+    # plan entries: archive, driver, offset table, number of masks, one obligation per header block?, offset ranges
     if quick:
-        plan = [("two", "ustar", "ets_tree", "q", 2, False)]
+        plan = [("two", "ustar", "ets_tree", "q", 2, False, 1)]
     else:
-        plan = [("two", "ustar", "ets_tree", "all", 4, True), ("long", "gnu", "generic", "f", 4, False), ("long", "pax", "ets_tree", "f", 4, False)]
-    for kind, fmt, driver, table, nmask, split in plan:
+        plan = [("two", "ustar", "ets_tree", "all", 2, True, 2), ("long", "gnu", "generic", "f", 4, True, 1), ("long", "pax", "ets_tree", "f", 4, True, 1)]
+    for kind, fmt, driver, table, nmask, split, nranges in plan:
         hb = header_blocks(kind, fmt)
         npos = len(POS_TABLES[table])
         pos_words = "any offset 0..511" if table == "all" else f"{npos} field-boundary offsets {POS_TABLES[table]}"
-        add(
-            f"L4_corrupt_first_header_{kind}_{fmt}_{driver}",
-            G4C,
-            "pi: int, mi: int",
-            [f"0 <= pi <= {npos - 1}", f"0 <= mi <= {nmask - 1}"],
-            f"prop_extract_corrupt({kind!r}, {fmt!r}, {driver!r}, 512, 0, pi, mi, {table!r})",
-            f"archive '{kind}' ({fmt}), {_DRIVER_WORDS[driver]}, chunk 512: one byte of the FIRST header block ({pos_words}) xor {MASKS[:nmask]}: the copy raises or is exact",
-            "byte offset, mask",
-            T_TAR,
-        )
-        groups = [(h, h) for h in range(1, len(hb))] if split else [(1, len(hb) - 1)]
+        groups = [(0, 0)] + ([(h, h) for h in range(1, len(hb))] if split else [(1, len(hb) - 1)])
+        step = -(-npos // nranges)
         for h0, h1 in groups:
-            add(
-                f"L4_corrupt_later_header_{kind}_{fmt}_{driver}" + (f"_h{h0}" if split else ""),
-                G4C,
-                "hi: int, pi: int, mi: int",
-                [f"{h0} <= hi <= {h1}", f"0 <= pi <= {npos - 1}", f"0 <= mi <= {nmask - 1}"],
-                f"prop_extract_corrupt({kind!r}, {fmt!r}, {driver!r}, 512, hi, pi, mi, {table!r})",
-                f"as L4_corrupt_first_header_{kind}_{fmt}_{driver} but in header block #{h0}..#{h1} (offsets {hb[h0 : h1 + 1]}) of the archive, extension (pax / GNU long-name) headers included",
-                "header block, byte offset, mask",
-                T_TAR,
-            )
+            for p0 in range(0, npos, step):
+                p1 = min(npos, p0 + step) - 1
+                first = h0 == 0
+                add(
+                    f"L4_corrupt_{'first' if first else 'later'}_header_{kind}_{fmt}_{driver}" + (f"_h{h0}" if split and not first else "") + (f"_p{p0}" if nranges > 1 else ""),
+                    G4C,
+                    "hi: int, pi: int, mi: int",
+                    [f"{h0} <= hi <= {h1}", f"{p0} <= pi <= {p1}", f"0 <= mi <= {nmask - 1}"],
+                    f"prop_extract_corrupt({kind!r}, {fmt!r}, {driver!r}, 512, hi, pi, mi, {table!r})",
+                    f"archive '{kind}' ({fmt}), {_DRIVER_WORDS[driver]}, chunk 512: one byte of "
+                    + ("the FIRST header block" if first else f"header block #{h0}..#{h1} (offsets {hb[h0 : h1 + 1]}; pax / GNU long-name extension headers included)")
+                    + f" at {pos_words}" + (f", entries {p0}..{p1}" if nranges > 1 else "") + f", xor {MASKS[:nmask]}: the copy raises or is exact",
+                    "header block, byte offset, mask",
+                    T_TAR,
+                )
     # ---- L5 writer
-    bufs = [0, 2, 4, 5] if quick else list(range(len(W_BUFS)))
+    bufs = [0, 2, 5] if quick else list(range(len(W_BUFS)))
+    nsz = 5 if quick else len(W_SIZES)
     bufpre = " or ".join(f"buf_i == {b}" for b in bufs)
     add(
         "L5_writer_file_source",
         G5,
         "fmt_i: int, n_i: int, buf_i: int, ln: bool",
-        ["0 <= fmt_i <= 2", f"0 <= n_i <= {len(W_SIZES) - 1}", bufpre],
+        ["0 <= fmt_i <= 2", f"0 <= n_i <= {nsz - 1}", bufpre],
         "prop_writer(fmt_i, n_i, buf_i, [], 2, ln)",
-        f"AioTarStream mode 'w' (format USTAR/GNU/PAX): directory, file of {W_SIZES} bytes with a short or a >100-byte name, 10-byte file; copy buffer {[W_BUFS[b] for b in bufs]}; local-file source; read back by tarfile: same names, types, modes, contents; length multiple of {tarfile.RECORDSIZE}",
+        f"AioTarStream mode 'w' (format USTAR/GNU/PAX): directory, file of {W_SIZES[:nsz]} bytes with a short or a >100-byte name, 10-byte file; copy buffer {[W_BUFS[b] for b in bufs]}; local-file source; read back by tarfile: same names, types, modes, contents; length multiple of {tarfile.RECORDSIZE}",
         "format, size selector, buffer selector, long-name flag",
         T_WRITE,
     )
@@ -1262,9 +1265,9 @@ def specs(tier: str):
         "L5_writer_stream_source",
         G5,
         f"fmt_i: int, n_i: int, buf_i: int, {chp4}",
-        ["1 <= fmt_i <= 1" if quick else "0 <= fmt_i <= 2", "n_i == 1 or n_i == 4" if quick else "1 <= n_i <= 4", "buf_i == 0 or buf_i == 2" + ("" if quick else " or buf_i == 5")] + chpre4,
+        ["1 <= fmt_i <= 1" if quick else "0 <= fmt_i <= 2", "n_i == 1 or n_i == 3" if quick else "1 <= n_i <= 5", "buf_i == 0 or buf_i == 2" + ("" if quick else " or buf_i == 5")] + chpre4,
         f"prop_writer(fmt_i, n_i, buf_i, {chl4}, 1, fmt_i != 0)",
-        f"as L5_writer_file_source with a chunked StreamWrapper source ({'GNU format, sizes 1/513, buffers None/7' if quick else 'sizes 1..513, buffers None/7/513'}); {cw4}",
+        f"as L5_writer_file_source with a chunked StreamWrapper source ({'GNU format, sizes 1/513, buffers None/7' if quick else 'sizes 1..1500, buffers None/7/513'}); {cw4}",
         "format, size selector, buffer selector, chunk sizes",
         T_WRITE,
     )
